@@ -31,6 +31,7 @@ pub struct Case {
 
 pub const F_BACKSLASH: &str = "C08-backslash-in-backslash-escaping-dialects";
 pub const F_NUL: &str = "C08-nul-character";
+pub const F_FORMAT_BACKSLASH: &str = "C08-formatter-rewrites-literal-with-backslash";
 pub const F_PRE_ESCAPED: &str = "C08-quote-sequences-treated-as-already-escaped";
 
 fn pre_escaped(v: &str) -> bool {
@@ -49,7 +50,7 @@ fn attribute_value(value: &str, known: &Known) -> Option<Verdict> {
 
 const HAZ: &[&str] = &[
     "'", "\"", "\\", "`", "\n", "\r", "\t", "--", "/*", "*/", ";", "{", "}", "{{", "$", "%", "_", "\0", "😀", "é", "e\u{301}",
-    "''", "\\'", "\\\\", "' OR 1=1 --", "\\n", "x", " ", "a", "1", "\u{a0}", "\u{2028}", "$1", "${x}", "#", "@", "\\u{41}", "\\x41",
+    "\r\n", " \n", "\t\n", " \r\n", "''", "\\'", "\\\\", "' OR 1=1 --", "\\n", "x", " ", "a", "1", "\u{a0}", "\u{2028}", "$1", "${x}", "#", "@", "\\u{41}", "\\x41",
 ];
 
 fn gen_value(t: &mut Tape) -> String {
@@ -323,6 +324,32 @@ pub fn check(c: &Case, known: &Known) -> Outcome {
             if let Lit::Str { value, .. } = &c.lit {
                 if let Some(v) = attribute_value(value, known) {
                     o.verdict = v;
+                }
+            }
+            return o;
+        }
+    }
+    // oracle 1b: the same with the default output formatting switched on (the formatter re-lays
+    // out the statement text and must not touch the inside of literals)
+    for target in ["sqlite", "generic"] {
+        let Compiled::Sql(sql) = util::compile_formatted(&src, util::dialect_by_name(target)) else { continue };
+        let Ok(res) = exec::run(&db, &sql) else { continue };
+        let got = res.rows.first().and_then(|r| r.first()).cloned().unwrap_or(Val::Null);
+        let ok = match (&c.lit, &got) {
+            (Lit::Str { value, .. }, Val::Text(g)) => g == value,
+            (Lit::Str { .. }, _) => false,
+            _ => true,
+        };
+        if !ok {
+            let mut o = Outcome::fail(
+                "with output formatting on, the value returned by SQLite is not the literal's value",
+                json!({"source": src, "sql": sql, "target": target, "literal": c.lit, "got": got.show()}),
+            );
+            if let Lit::Str { value, .. } = &c.lit {
+                if let Some(v) = attribute_value(value, known) {
+                    o.verdict = v;
+                } else if value.contains('\\') && known.is_open(F_FORMAT_BACKSLASH) {
+                    o.verdict = Verdict::Known(F_FORMAT_BACKSLASH.into(), "formatted output, literal containing a backslash".into());
                 }
             }
             return o;
